@@ -86,6 +86,8 @@ impl File {
         let dest = OpenOptions::new()
             .create(true)
             .write(true)
+            // Whatever the destination held before has to go
+            .truncate(true)
             .mode(this_metadata.mode())
             .open(dest)?;
         let mut offset = 0;
